@@ -1047,10 +1047,39 @@ def _progress(body, movers=(('var', 'rip'), ('var', 'cip'))):
 def rule_wps_bounds(ctx, m, tier='quick'):
     """Per region: every cell written in the column loop lies inside its row, 0 <= position < width."""
     pdefs, praw = parts_defs(m)
-    for fname in WRITERS:
+    for fname in WRITERS + AFF_WRITERS:
         info = analyse_writer(m, fname)
         for R in info['regions']:
             guards = [sub(V('ri'), R.lo), sub(sub(R.hi, V('ri')), C(1)), sub(sub(V('L1'), V('ri')), C(1)), sub(sub(R.hi_col, R.c0), C(1))]
+            # cells blanked before the column loop by a lock-step skip loop `for (; ci < X; ci++) { wps[row + pos] = ...; pos++; }` (upper-triangle
+            # mode): they occupy positions w0 .. w0 + (X - c0) - 1 of the row and must stay inside it as well
+            for sl, senv, spath in R.skip_loops:
+                if not any(t.k == 'assign' and t.target[0] == 'idx' for t in walk_stmts(sl.body)):
+                    continue
+                try:
+                    X = sym.from_ir(norm_minmax(subst_expr(sl.hi, senv)), atom=info['amap'])
+                except sym.Unsupported:
+                    ctx.undecided('R-MAP', '%s region %s skip loop' % (fname, R.name), 'bound %s is not a linear term' % fmt(sl.hi))
+                    continue
+                free = [a for a in sym.atoms(X) if a not in ('ri', 'L1', 'L2', 'W') and not a.startswith('P_')]
+                if free:
+                    # a carried start column (PrunedDTW): bounded by the previous row's end column, which this rule does not track
+                    ctx.undecided('R-MAP', '%s region %s skip loop' % (fname, R.name), 'bound depends on %s' % sorted(free))
+                    continue
+                g2 = guards[:3] + [sub(sub(X, R.c0), C(1))]
+                last = sub(add(R.w0, sub(X, R.c0)), C(1))
+                over = tmax(C(0), add(sub(last, V('P_width')), C(1)))
+                r = decide_equal(pdefs, over, C(0), g2)
+                inst = '%s region %s blanked prefix stays inside the row' % (fname, R.name)
+                if r[0] == 'equal':
+                    ctx.held('R-MAP', inst, 'proved in %d regimes' % r[1])
+                elif r[0] == 'differ':
+                    ctx.violation('R-MAP', R.file, fname, 'region %s blanked prefix bound' % R.name,
+                                  'in region %s the loop that blanks the cells left of column %s (line %s) is not limited to the columns of the row: it writes %s position(s) beyond '
+                                  'the end of the row (at %s) -- past the end of the matrix on the last rows' % (R.name, fmt(sl.hi), sl.line, r[2], kern._fmtw(r[1])),
+                                  sl.line, facts={'witness': r[1], 'failset': r[4]})
+                else:
+                    ctx.undecided('R-MAP', inst, r[1])
             # positions written: Q(j) = w0 + (j - c0) for j in [c0, hi_col): the last one is w0 + hi_col - c0 - 1
             maxpos = sub(add(R.w0, sub(R.hi_col, R.c0)), C(1))
             over = tmax(C(0), add(sub(maxpos, V('P_width')), C(1)))       # > 0 iff the last position is >= width
